@@ -21,6 +21,9 @@ type Config struct {
 	// execution (the first-level branches) are dealt round-robin; part k explores the default execution and the branches
 	// with index k modulo Parts. The union over all parts is the whole exploration; each part has its own state cache.
 	Part, Parts int
+	// MaxStates stops the exploration (result incomplete) once the state cache holds this many states; 0 = 6 million
+	// (about 0.7 GB per process: 16 processes run side by side and the sandbox has no memory limit of its own).
+	MaxStates int
 }
 
 // StateCache maps a state key to the pareto-minimal budgets with which the state has been expanded.
@@ -71,13 +74,17 @@ func Explore(cfg Config, scenario func(), oracle Oracle) *Result {
 		cfg.Cache = NewStateCache()
 	}
 	cache := cfg.Cache.m
+	maxStates := cfg.MaxStates
+	if maxStates == 0 {
+		maxStates = 6000000
+	}
 	stop := false
 	var rec func(prefix []int, used budget)
 	rec = func(prefix []int, used budget) {
 		if stop {
 			return
 		}
-		if (cfg.MaxExecs > 0 && res.Execs >= cfg.MaxExecs) || (!cfg.Deadline.IsZero() && res.Execs%64 == 0 && time.Now().After(cfg.Deadline)) {
+		if (cfg.MaxExecs > 0 && res.Execs >= cfg.MaxExecs) || (!cfg.Deadline.IsZero() && res.Execs%64 == 0 && time.Now().After(cfg.Deadline)) || len(cache) > maxStates {
 			stop = true
 			res.Complete = false
 			return
